@@ -3,3 +3,5 @@
 package dns
 
 func verifHook(string, []byte) {}
+
+func verifWork(int) {}
